@@ -3,7 +3,7 @@
      rockredis/rockredis.go   GetCheckpointDir, CheckpointSortNames.Less (+ sort.Sort on it),
                               GetLatestCheckpoint, purgeOldCheckpoint, isSameSSTFile,
                               restoreFromPath (the file plan), Backup / backupLoop / Restore /
-                              IsLocalBackupOK / SetLatestSnapIndex (value level)
+                              IsLocalBackupOK / SetLatestSnapIndex / RestoreFromRemoteBackup (value level)
      strconv.ParseUint(s, 16, 64), strings.SplitN / Split on "-", filepath.Glob("*-*")
      common/util.go           CopyFileForHardLink, CopyFile (as file-system steps)
      node/state_machine.go    kvStoreSM.GetSnapshot / RestoreFromSnapshot / UpdateSnapshotState
@@ -264,7 +264,8 @@ Definition restore_plan (fs : fsys) (cur ck : list dirent) : fsys * list dirent 
 Record ckinfo := { ck_val : N; ck_dg : N }.
 Record vstore := {
   vs_val : N;                              (* id of the current logical content *)
-  vs_cks : list (bytes * ckinfo);          (* backup directory, in byte order of names *)
+  vs_cks : list (bytes * ckinfo);          (* backup directory rocksdb_backup, in byte order of names *)
+  vs_remote : list (bytes * ckinfo);       (* rocksdb_backup/remote: checkpoints transferred from another cluster *)
   vs_latest : N;                           (* latestSnapIndex *)
   vs_keep : N;                             (* cfg.KeepBackup *)
   vs_pending : option (bytes * N)          (* Backup accepted, copy not finished: name, value at the backup instant *)
@@ -279,13 +280,28 @@ Fixpoint ck_insert (l : list (bytes * ckinfo)) (e : bytes * ckinfo) :=
   | x :: r => if bytes_ltb (fst e) (fst x) then e :: l else x :: ck_insert r e
   end.
 
+Definition set_val (s : vstore) (h : N) : vstore :=
+  {| vs_val := h; vs_cks := vs_cks s; vs_remote := vs_remote s; vs_latest := vs_latest s; vs_keep := vs_keep s; vs_pending := vs_pending s |}.
+Definition set_cks (s : vstore) (l : list (bytes * ckinfo)) : vstore :=
+  {| vs_val := vs_val s; vs_cks := l; vs_remote := vs_remote s; vs_latest := vs_latest s; vs_keep := vs_keep s; vs_pending := vs_pending s |}.
+Definition set_remote (s : vstore) (l : list (bytes * ckinfo)) : vstore :=
+  {| vs_val := vs_val s; vs_cks := vs_cks s; vs_remote := l; vs_latest := vs_latest s; vs_keep := vs_keep s; vs_pending := vs_pending s |}.
+Definition set_latest (s : vstore) (i : N) : vstore :=
+  {| vs_val := vs_val s; vs_cks := vs_cks s; vs_remote := vs_remote s; vs_latest := i; vs_keep := vs_keep s; vs_pending := vs_pending s |}.
+Definition set_pending (s : vstore) (p : option (bytes * N)) : vstore :=
+  {| vs_val := vs_val s; vs_cks := vs_cks s; vs_remote := vs_remote s; vs_latest := vs_latest s; vs_keep := vs_keep s; vs_pending := p |}.
+
 Definition keep_num (s : vstore) : nat :=
   N.to_nat (if 0 <? vs_keep s then vs_keep s else max_checkpoint_num).
 
+Definition purge_dir (keep : nat) (latest : N) (l : list (bytes * ckinfo)) : list (bytes * ckinfo) :=
+  let rm := purge_removed keep (map fst l) latest in
+  filter (fun e => negb (mem_name (fst e) rm)) l.
+
+(* the two purgeOldCheckpoint calls of backupLoop / restoreFromPath *)
 Definition vpurge (s : vstore) : vstore :=
-  let rm := purge_removed (keep_num s) (map fst (vs_cks s)) (vs_latest s) in
-  {| vs_val := vs_val s; vs_cks := filter (fun e => negb (mem_name (fst e) rm)) (vs_cks s);
-     vs_latest := vs_latest s; vs_keep := vs_keep s; vs_pending := vs_pending s |}.
+  set_remote (set_cks s (purge_dir (keep_num s) (vs_latest s) (vs_cks s)))
+             (purge_dir (N.to_nat max_remote_checkpoint_num) remote_purge_latest (vs_remote s)).
 
 Inductive vop :=
 | OWrite (h : N)                   (* a batch of writes whose result is the content h *)
@@ -294,15 +310,13 @@ Inductive vop :=
                                       after (a store with a small KeepBackup is closed and reopened here by the
                                       harness, which flushes the HyperLogLog cache into the engine) *)
 | ORestore (term index : N)
+| ORestoreRemote (term index : N)  (* RestoreFromRemoteBackup *)
 | OSetLatest (i : N)
 | OLocalOK (term index : N)
 | OReopen (h : N)                  (* close + reopen: h = content after (cache flush) *)
 | ONop.                            (* compaction *)
 
-Inductive vres := ROk | RNoBackup | RBusy | RNone | RYes | RNo | RNoSrc.
-
-Definition set_val (s : vstore) (h : N) : vstore :=
-  {| vs_val := h; vs_cks := vs_cks s; vs_latest := vs_latest s; vs_keep := vs_keep s; vs_pending := vs_pending s |}.
+Inductive vres := ROk | RNoBackup | RBusy | RNone | RYes | RNo | RNoSrc | RErr.
 
 Definition vstep (s : vstore) (o : vop) : vstore * vres :=
   match o with
@@ -310,24 +324,26 @@ Definition vstep (s : vstore) (o : vop) : vstore * vres :=
   | OBackup t i h =>
       match vs_pending s with
       | Some _ => (s, RBusy)
-      | None => ({| vs_val := h; vs_cks := vs_cks s; vs_latest := vs_latest s; vs_keep := vs_keep s;
-                    vs_pending := Some (enc_name t i, h) |}, ROk)
+      | None => (set_pending (set_val s h) (Some (enc_name t i, h)), ROk)
       end
   | OFinish dg h =>
       match vs_pending s with
       | None => (s, RNone)
       | Some (n, v) =>
-          (vpurge {| vs_val := h;
-                     vs_cks := ck_insert (ck_remove (vs_cks s) n) (n, {| ck_val := v; ck_dg := dg |});
-                     vs_latest := vs_latest s; vs_keep := vs_keep s; vs_pending := None |}, ROk)
+          (vpurge (set_pending (set_cks (set_val s h)
+                     (ck_insert (ck_remove (vs_cks s) n) (n, {| ck_val := v; ck_dg := dg |}))) None), ROk)
       end
   | ORestore t i =>
       match ck_lookup (vs_cks s) (enc_name t i) with
       | None => (s, RNoBackup)
       | Some c => (vpurge (set_val s (ck_val c)), ROk)
       end
-  | OSetLatest i =>
-      ({| vs_val := vs_val s; vs_cks := vs_cks s; vs_latest := i; vs_keep := vs_keep s; vs_pending := vs_pending s |}, ROk)
+  | ORestoreRemote t i =>
+      match ck_lookup (vs_remote s) (enc_name t i) with
+      | None => (s, RErr)                       (* os.Stat of the remote checkpoint fails *)
+      | Some c => (vpurge (set_val s (ck_val c)), ROk)
+      end
+  | OSetLatest i => (set_latest s i, ROk)
   | OLocalOK t i =>
       (s, match ck_lookup (vs_cks s) (enc_name t i) with Some _ => RYes | None => RNo end)
   | OReopen h => (set_val s h, ROk)
@@ -338,12 +354,17 @@ Definition vstep (s : vstore) (o : vop) : vstore * vres :=
    (a stale directory of that name in b is removed first) *)
 Definition vcopy (a b : vstore) (t i : N) : vstore * vres :=
   let n := enc_name t i in
-  let b' := {| vs_val := vs_val b; vs_cks := ck_remove (vs_cks b) n; vs_latest := vs_latest b;
-               vs_keep := vs_keep b; vs_pending := vs_pending b |} in
   match ck_lookup (vs_cks a) n with
-  | None => (b', RNoSrc)
-  | Some c => ({| vs_val := vs_val b; vs_cks := ck_insert (ck_remove (vs_cks b) n) (n, c); vs_latest := vs_latest b;
-                  vs_keep := vs_keep b; vs_pending := vs_pending b |}, ROk)
+  | None => (set_cks b (ck_remove (vs_cks b) n), RNoSrc)
+  | Some c => (set_cks b (ck_insert (ck_remove (vs_cks b) n) (n, c)), ROk)
+  end.
+
+(* the same into b's directory for remote checkpoints (ProposeOp_TransferRemoteSnap) *)
+Definition vcopy_remote (a b : vstore) (t i : N) : vstore * vres :=
+  let n := enc_name t i in
+  match ck_lookup (vs_cks a) n with
+  | None => (set_remote b (ck_remove (vs_remote b) n), RNoSrc)
+  | Some c => (set_remote b (ck_insert (ck_remove (vs_remote b) n) (n, c)), ROk)
   end.
 
 (* kvStoreSM.PrepareSnapshot on store b with peer a: nothing to do when b has a local backup of
@@ -358,4 +379,4 @@ Definition vfetch (a b : vstore) (t i : N) : vstore * vres :=
   end.
 
 Definition vinit (keep h : N) : vstore :=
-  {| vs_val := h; vs_cks := []; vs_latest := 0; vs_keep := keep; vs_pending := None |}.
+  {| vs_val := h; vs_cks := []; vs_remote := []; vs_latest := 0; vs_keep := keep; vs_pending := None |}.
